@@ -10,6 +10,7 @@ import (
 	"runtime/debug"
 	"sort"
 	"strings"
+	"sync"
 
 	"verif/checker/internal/dtab"
 	"verif/checker/internal/load"
@@ -173,17 +174,26 @@ func cmdCheck(args []string) (code int) {
 			run.Count("entailments_rechecked_by_evaluation", n)
 		}
 		rules.CrossCheck = false
-		selfTest(id, repo, verif, check, run)
-		benignTest(id, repo, verif, check, run)
+		selfTest(id, repo, verif, run)
 	}
 	return run.Finish(verif)
 }
 
-// selfTest (thorough tier): every seeded change kept under <verif>/seeded that this property's
-// check is recorded to report is applied to a scratch copy of the current tree (outside /repo and
-// /verif, removed at once) and the check is run on that copy; a check that stays silent on a
-// change it is known to report is broken. Seeds that no longer apply to the tree are skipped.
-func selfTest(id, repo, verif string, check rules.Check, run *report.Run) {
+// selfTest (thorough tier), both ways, on scratch copies of the CURRENT tree outside /repo and
+// /verif (removed at once):
+//   - every seeded change kept under <verif>/seeded that this property's check is recorded to
+//     report is applied and the check is run on the copy: a check that stays silent is broken;
+//   - every behaviour-preserving refactoring kept under <verif>/benign is applied and the check
+//     must stay silent: a report there is a false alarm of the machinery and breaks the check.
+//
+// Patches that no longer apply to the tree are skipped and counted. Each copy is analysed by a
+// child process of this same binary (quick tier), a few at a time.
+func selfTest(id, repo, verif string, run *report.Run) {
+	type job struct {
+		name, patch string
+		seeded      bool
+	}
+	var jobs []job
 	metas, _ := filepath.Glob(filepath.Join(verif, "seeded", "*", "meta.json"))
 	sort.Strings(metas)
 	for _, mp := range metas {
@@ -192,152 +202,134 @@ func selfTest(id, repo, verif string, check rules.Check, run *report.Run) {
 			continue
 		}
 		var meta struct {
-			Property string   `json:"property"`
 			CaughtBy []string `json:"caught_by"`
 		}
 		if json.Unmarshal(b, &meta) != nil {
 			continue
 		}
-		mine := false
 		for _, cb := range meta.CaughtBy {
 			if cb == id {
-				mine = true
+				jobs = append(jobs, job{filepath.Base(filepath.Dir(mp)), filepath.Join(filepath.Dir(mp), "patch.diff"), true})
 			}
 		}
-		if !mine {
-			continue
-		}
-		name := filepath.Base(filepath.Dir(mp))
-		patch := filepath.Join(filepath.Dir(mp), "patch.diff")
-		tmp, err := os.MkdirTemp("", "verif-selftest-")
-		if err != nil {
-			run.Break("self-test: cannot create a scratch directory: " + err.Error())
-			return
-		}
-		func() {
-			defer os.RemoveAll(tmp)
-			if err := copyTree(repo, tmp); err != nil {
-				run.Break("self-test: cannot copy the tree: " + err.Error())
+	}
+	patches, _ := filepath.Glob(filepath.Join(verif, "benign", "*", "patch.diff"))
+	sort.Strings(patches)
+	for _, p := range patches {
+		jobs = append(jobs, job{filepath.Base(filepath.Dir(p)), p, false})
+	}
+	type outcome struct {
+		skipped          string
+		err              string
+		reported, broken bool
+		first            string
+	}
+	results := make([]outcome, len(jobs))
+	self, err := os.Executable()
+	if err != nil {
+		run.Break("self-test: cannot locate the checker binary: " + err.Error())
+		return
+	}
+	sem := make(chan struct{}, 6)
+	var wg sync.WaitGroup
+	for i, j := range jobs {
+		wg.Add(1)
+		go func(i int, j job) {
+			defer wg.Done()
+			sem <- struct{}{}
+			defer func() { <-sem }()
+			tmp, err := os.MkdirTemp("", "verif-selftest-")
+			if err != nil {
+				results[i].err = err.Error()
 				return
 			}
-			cmd := exec.Command("git", "apply", "--whitespace=nowarn", patch)
-			cmd.Dir = tmp
-			cmd.Env = append(os.Environ(), "GIT_DIR=/nonexistent", "GIT_CEILING_DIRECTORIES="+filepath.Dir(tmp))
+			defer os.RemoveAll(tmp)
+			src, vdir := filepath.Join(tmp, "src"), filepath.Join(tmp, "verif")
+			if err := os.MkdirAll(vdir, 0o755); err != nil {
+				results[i].err = err.Error()
+				return
+			}
+			if err := copyTree(repo, src); err != nil {
+				results[i].err = err.Error()
+				return
+			}
+			if kf, err := os.ReadFile(filepath.Join(verif, "known_findings.json")); err == nil {
+				_ = os.WriteFile(filepath.Join(vdir, "known_findings.json"), kf, 0o644)
+			}
+			cmd := exec.Command("git", "apply", "--whitespace=nowarn", j.patch)
+			cmd.Dir = src
+			cmd.Env = append(os.Environ(), "GIT_DIR=/nonexistent", "GIT_CEILING_DIRECTORIES="+tmp)
 			if out, err := cmd.CombinedOutput(); err != nil {
-				cmd2 := exec.Command("patch", "-p1", "-s", "-i", patch)
-				cmd2.Dir = tmp
+				cmd2 := exec.Command("patch", "-p1", "-s", "-i", j.patch)
+				cmd2.Dir = src
 				if out2, err2 := cmd2.CombinedOutput(); err2 != nil {
-					run.Note(fmt.Sprintf("self-test: seeded change %s does not apply to the current tree, skipped (%s %s)", name, strings.TrimSpace(string(out)), strings.TrimSpace(string(out2))))
-					run.Count("selftest_skipped", 1)
+					results[i].skipped = strings.TrimSpace(string(out)) + " " + strings.TrimSpace(string(out2))
 					return
 				}
 			}
-			p2, err := load.Load(tmp, check.NeedSSA)
-			if err != nil {
-				run.Note("self-test: seeded change " + name + " does not type-check on the current tree, skipped")
-				run.Count("selftest_skipped", 1)
-				return
-			}
-			sub := report.NewRun(id, "quick")
-			func() {
-				defer func() {
-					if r := recover(); r != nil {
-						sub.Break(fmt.Sprint("panic: ", r))
+			child := exec.Command(self, "check", id, "--tier", "quick", "--repo", src, "--verif", vdir)
+			child.Env = append(os.Environ(), "VERIF_TIER=quick")
+			out, _ := child.CombinedOutput()
+			for _, ln := range strings.Split(string(out), "\n") {
+				switch {
+				case strings.HasPrefix(ln, "VIOLATION "):
+					results[i].reported = true
+				case strings.HasPrefix(ln, "CHECK-BROKEN"):
+					results[i].broken = true
+					if strings.Contains(ln, "type errors") || strings.Contains(ln, "cannot load") {
+						results[i].skipped = "does not type-check on the current tree"
 					}
-				}()
-				c2 := rules.NewCtx(p2, "quick", sub)
-				if check.NeedSSA {
-					c2.PrepareSSA()
+					if results[i].first == "" {
+						results[i].first = strings.TrimSpace(ln)
+					}
+				case strings.HasPrefix(ln, "  ") && results[i].first == "":
+					results[i].first = strings.TrimSpace(ln)
 				}
-				load.Normalize(p2)
-				check.Fn(c2)
-			}()
-			fresh, broken := sub.Fresh(verif)
+			}
+		}(i, j)
+	}
+	wg.Wait()
+	for i, j := range jobs {
+		r := results[i]
+		kind := "refactoring"
+		if j.seeded {
+			kind = "seeded change"
+		}
+		switch {
+		case r.err != "":
+			run.Break("self-test: " + r.err)
+		case r.skipped != "":
+			run.Note("self-test: " + kind + " " + j.name + " does not apply to the current tree, skipped (" + short(r.skipped, 120) + ")")
+			run.Count("selftest_skipped", 1)
+		case j.seeded:
 			run.Count("selftest_seeds", 1)
-			run.Oblige(len(fresh)+len(broken) > 0)
-			if len(fresh)+len(broken) == 0 {
-				run.Break("self-test: the check is silent on the seeded change " + name + " which it is recorded to report")
-				return
-			}
-			what := ""
-			if len(fresh) > 0 {
-				what = fresh[0].Rule + " " + fresh[0].Site
+			run.Oblige(r.reported || r.broken)
+			if !r.reported && !r.broken {
+				run.Break("self-test: the check is silent on the seeded change " + j.name + " which it is recorded to report")
 			} else {
-				what = "fails closed: " + broken[0]
+				run.Note("self-test: seeded change " + j.name + " is reported (" + short(r.first, 160) + ")")
 			}
-			run.Note("self-test: seeded change " + name + " is reported (" + what + ")")
-		}()
+		default:
+			run.Count("selftest_refactorings", 1)
+			run.Oblige(!r.reported && !r.broken)
+			if r.reported || r.broken {
+				run.Break("self-test: false alarm on the behaviour-preserving refactoring " + j.name + " (" + short(r.first, 200) + ")")
+			}
+		}
 	}
 }
 
-// benignTest (thorough tier): every behaviour-preserving refactoring kept under <verif>/benign is
-// applied to a scratch copy of the current tree and the check must stay silent on it; a report
-// there is a false alarm of the machinery and breaks the check. Patches that no longer apply are skipped.
-func benignTest(id, repo, verif string, check rules.Check, run *report.Run) {
-	patches, _ := filepath.Glob(filepath.Join(verif, "benign", "*", "patch.diff"))
-	sort.Strings(patches)
-	for _, patch := range patches {
-		name := filepath.Base(filepath.Dir(patch))
-		tmp, err := os.MkdirTemp("", "verif-benign-")
-		if err != nil {
-			run.Break("self-test: cannot create a scratch directory: " + err.Error())
-			return
-		}
-		func() {
-			defer os.RemoveAll(tmp)
-			if err := copyTree(repo, tmp); err != nil {
-				run.Break("self-test: cannot copy the tree: " + err.Error())
-				return
-			}
-			cmd := exec.Command("git", "apply", "--whitespace=nowarn", patch)
-			cmd.Dir = tmp
-			cmd.Env = append(os.Environ(), "GIT_DIR=/nonexistent", "GIT_CEILING_DIRECTORIES="+filepath.Dir(tmp))
-			if _, err := cmd.CombinedOutput(); err != nil {
-				cmd2 := exec.Command("patch", "-p1", "-s", "-i", patch)
-				cmd2.Dir = tmp
-				if _, err2 := cmd2.CombinedOutput(); err2 != nil {
-					run.Note("self-test: refactoring " + name + " does not apply to the current tree, skipped")
-					run.Count("selftest_skipped", 1)
-					return
-				}
-			}
-			p2, err := load.Load(tmp, check.NeedSSA)
-			if err != nil {
-				run.Note("self-test: refactoring " + name + " does not type-check on the current tree, skipped")
-				run.Count("selftest_skipped", 1)
-				return
-			}
-			sub := report.NewRun(id, "quick")
-			func() {
-				defer func() {
-					if r := recover(); r != nil {
-						sub.Break(fmt.Sprint("panic: ", r))
-					}
-				}()
-				c2 := rules.NewCtx(p2, "quick", sub)
-				if check.NeedSSA {
-					c2.PrepareSSA()
-				}
-				load.Normalize(p2)
-				check.Fn(c2)
-			}()
-			fresh, broken := sub.Fresh(verif)
-			run.Count("selftest_refactorings", 1)
-			run.Oblige(len(fresh)+len(broken) == 0)
-			if len(fresh)+len(broken) > 0 {
-				what := ""
-				if len(fresh) > 0 {
-					what = fresh[0].Rule + " " + fresh[0].Site + ": " + fresh[0].Message
-				} else {
-					what = broken[0]
-				}
-				run.Break("self-test: false alarm on the behaviour-preserving refactoring " + name + " (" + what + ")")
-			}
-		}()
+func short(s string, n int) string {
+	if len(s) <= n {
+		return s
 	}
+	return s[:n] + "…"
 }
 
 func copyTree(src, dst string) error {
+	if err := os.MkdirAll(dst, 0o755); err != nil {
+		return err
+	}
 	return filepath.Walk(src, func(path string, info os.FileInfo, err error) error {
 		if err != nil {
 			return err
